@@ -2,6 +2,7 @@ import Zog.Props.FactsOK
 import Zog.Mono
 import Zog.EventPaths
 import Zog.CtxVals
+import Zog.Props.C16
 
 /-!
 # C12 — user callbacks run at the documented times with the node's own value
